@@ -58,6 +58,8 @@ def gen_history(rng, chan):
         r = rng.random()
         if r < 0.3 and free:
             i = free.pop(0); alive.append(i); pend.setdefault(i, 0); prog.append(("create", []))
+        elif r < 0.36 and not free:
+            prog.append(("create", [])); prog.append(("count", []))          # every id in use: the creation must be refused and change nothing (F18)
         elif r < 0.6 and alive and all(pend[i] < N - 1 for i in alive):
             sent += 1; prog.append(("send", [sent]))
             for i in alive: pend[i] += 1
